@@ -11,6 +11,8 @@ C19 — Core builtins and bundled package tables agree with their Go counterpart
 -/
 import Anko.Model.Builtins
 import Anko.Gen.Packages
+import Anko.Gen.CoreFlow
+import Anko.Props.CoreFlowTable
 
 namespace Anko.C19
 open Anko
@@ -217,5 +219,13 @@ def okList (r : Except String (List Int)) : List Int := match r with | .ok l => 
 example : okList (rangeBuiltin [9223372036854775806, 9223372036854775807, 2]) = [9223372036854775806] := by decide
 example : okList (rangeBuiltin [5, 0, -2]) = [5, 3, 1] := by decide
 example : okList (rangeBuiltin [3]) = [0, 1, 2] := by decide
+
+/-! ### The builtins in the source (regenerated: Gen/CoreFlow)
+
+Every leaf statement of core.Import (keys, range, typeOf, kindOf, defined, load, print / println / printf, close) and core.ImportToX (toString, toInt,
+toFloat, toBool, toChar, toRune and the slice forms), the bodies of the registered function literals included, is the one written down in
+Props/CoreFlowTable next to Model/Builtins. Any edit of these functions - also a harmless one - breaks this obligation by name; the check then
+searches model and implementation for a failing input (DESIGN.md 13.3). -/
+theorem builtins_are_the_modelled_ones : Gen.CoreFlow.leaves = Tables.coreFlow := by decide +kernel
 
 end Anko.C19
